@@ -34,8 +34,8 @@ def event_class(tr, i):
 def run_package_property(run, tier, prefixes, ntraces=None, nsteps=None, sources=None, mc=True):
     if mc:
         model_check(run, tier)
-    n = ntraces or (120 if tier == "quick" else 3000)
-    steps = nsteps or (9 if tier == "quick" else 12)
+    n = ntraces or (320 if tier == "quick" else 3000)
+    steps = nsteps or (10 if tier == "quick" else 12)
     traces = pd.generate(n, run.seed, steps, sources=sources)
     res, rep = pd.validate(traces)
     run.add_tlc("PackageTrace validation of recorded histories", res)
